@@ -157,6 +157,7 @@ type Sim struct {
 	Panic   *PanicInfo
 	aborted bool
 
+	OSYield bool // every os / syscall call of the instrumented Ufs is a schedule point
 	// OS-fault seam (calls of the Unix file server into os / syscall): per-mille probability that
 	// a call fails instead of being performed, at most OSMax times; every firing is logged.
 	OSRate int
@@ -180,6 +181,10 @@ var osErrnos = []syscall.Errno{syscall.EIO, syscall.ENOSPC, syscall.EACCES, sysc
 //go:norace
 func OSFault(site int, name string) error {
 	s := S
+	if s != nil && s.OSYield {
+		// a system call is a place where the goroutine may be descheduled
+		Yield(site)
+	}
 	if s == nil || s.OSRate <= 0 || len(s.OSLog) >= s.OSMax {
 		return nil
 	}
